@@ -288,7 +288,7 @@ def gen_op(rng, ref):
         es = [rng.choice([1.0, 0.5, 2.0, 0.25, 3.0, 1.5]) for _ in range(n)]
         if rng.random() < 0.1 and es:
             es[rng.randrange(len(es))] = 0.0
-        return (rng.choice(["er", "er", "sy"]), es, rng.choice(["list", "array"]))
+        return (rng.choice(["er", "er", "sy"]), es, rng.choice(H.CONTAINER_HOWS[:7]))
     if r < 0.65:
         q = rng.random()
         if q < 0.8 and nb < 6:
@@ -306,7 +306,7 @@ def gen_op(rng, ref):
     if r < 0.88:
         q = rng.random()
         if q < 0.75:
-            return ("aw", [rng.choice([1.0, 2.0, 0.5, 3.0, 0.25]) for _ in range(nh)], rng.choice(["list", "array"]))
+            return ("aw", [rng.choice([1.0, 2.0, 0.5, 3.0, 0.25]) for _ in range(nh)], rng.choice(H.CONTAINER_HOWS[:7]))
         if q < 0.9:
             return ("aw", [1.0] * max(nh + rng.choice([1, -1, 2]), 0), "list")
         return ("aw", ([1.0, -1.0] + [0.0] * (nh - 2)) if nh >= 2 else [0.0], "list")
@@ -384,7 +384,7 @@ def gen_session(rng, max_blocks=4):
                 emit(H.gen_scale(rng, ref.nb))
             if rng.random() < 0.8:
                 emit(("av",) if rng.random() < 0.5 else
-                     ("aw", [rng.choice([1.0, 2.0, 0.5, 3.0]) for _ in range(ref.nh)], rng.choice(["list", "array"])))
+                     ("aw", [rng.choice([1.0, 2.0, 0.5, 3.0]) for _ in range(ref.nh)], rng.choice(H.CONTAINER_HOWS[:7])))
                 tags.add("histograms-round-trip")
         elif kind == "content":
             q = rng.random()
@@ -394,7 +394,7 @@ def gen_session(rng, max_blocks=4):
                 emit(H.gen_scale(rng, ref.nb))
             elif q < 0.8:
                 emit((rng.choice(["er", "sy"]), [rng.choice([1.0, 0.5, 2.0, 0.25, 3.0, 1.5]) for _ in range(ref.nb)],
-                      rng.choice(["list", "array"])))
+                      rng.choice(H.CONTAINER_HOWS[:7])))
             elif q < 0.93:
                 emit(("se",))
             else:
@@ -432,7 +432,7 @@ def gen_big_average(rng):
     if all(w == 1.0 for w in ws) and rng.random() < 0.6:
         ops.append(("av",))
     else:
-        ops.append(("aw", list(ws), rng.choice(["list", "array"])))
+        ops.append(("aw", list(ws), rng.choice(H.CONTAINER_HOWS[:7])))
     ops.append(rng.choice([("wr", ["distribution", "stat_err+", "stat_err-"], lab, ""), ("wr", None, lab, ""), ("g", "e")]))
     edges = [float(x) for x in make_hist(ctor).bin_edges_]
     return ctor, edges, ops, readmit(ctor, ops)
@@ -836,10 +836,15 @@ def oracle_c10(ctor, ops, adms):
                 return (f"average:not-one-histogram:{name}", f"{name} left {h.number_of_histograms_} histograms", where)
             sw = sum(Fraction(w) for w in ws)
             for j in range(X.shape[1]):
+                if not all(math.isfinite(float(x)) for x in X[:, j]):
+                    continue
                 xs = [Fraction(float(x)) for x in X[:, j]]
                 mean = sum(Fraction(w) * x for w, x in zip(ws, xs)) / sw
                 var = sum(Fraction(w) * (x - mean) ** 2 for w, x in zip(ws, xs)) / sw
-                if not feq(float(h.histograms_[0][j]), float(mean), False):
+                # (rounding of sum(w x) is relative to the size of the terms, not of a sum that may cancel)
+                scale = sum(abs(Fraction(w)) * abs(x) for w, x in zip(ws, xs)) / abs(sw)
+                got_m = float(h.histograms_[0][j])
+                if not (got_m == got_m and abs(got_m) != float("inf") and abs(Fraction(got_m) - mean) <= Fraction(1, 10 ** 11) * scale):
                     return (f"average:mean:{name}", f"{name}: bin {j} is {float(h.histograms_[0][j])!r}, the weighted mean is {float(mean)!r}", where)
                 std = math.sqrt(var) if var >= 0 else float("nan")
                 got_e = float(h.error_[0][j])
@@ -865,6 +870,14 @@ def oracle_c10(ctor, ops, adms):
                                if not feq(x[j], y[j], True)]
                         if not bad:
                             continue
+                    lab_b = op[2][0] if len(op[2]) == 1 else op[2][b]
+                    if bad and all(any(c2 != c and lab_b[c2] == lab_b[c] and same(float(tab[c2][b][i]), float(v)) for c2 in cols)
+                                   for i, c, v in bad):
+                        bcols = [c for c in ALL_COLS if any(c == c2 for _i, c2, _v in bad)]
+                        return ("write:columns-sharing-a-label-text",
+                                f"write_to_file columns {cols} with header {list(eh)}: rows {gr} but the values belonging to these "
+                                f"columns are {er}; column(s) {bcols} hold the value of another column that has the same label text",
+                                dict(where, columns=bcols))
                     if bad and all(any(b < len(t_[c]) and i < len(t_[c][b]) and same(float(t_[c][b][i]), float(v))
                                        for t_ in earlier if isinstance(t_, dict)) for i, c, v in bad):
                         bcols = [c for c in ALL_COLS if any(c == c2 for _i, c2, _v in bad)]
